@@ -996,3 +996,20 @@ Proof.
   all: try discriminate.
   all: apply Ret_inj in H; discriminate.
 Qed.
+
+Theorem sa_roundtrip_v6_nozone : forall tbl k port addr, valid_tbl tbl -> zlen addr = 16 -> to4 addr = None ->
+  exists na, back k tbl (Some (SA6 port 0 addr)) = Ret (Some na) /\
+             net_addr_to_sockaddr tbl (Some na) = Ret (Some (SA6 port 0 addr)).
+Proof.
+  intros tbl k port addr Hv H16 H4.
+  exact (sa_roundtrip_v6 tbl k port 0 addr Hv H16 (ZI0 tbl) (or_introl H4)).
+Qed.
+
+Theorem sa_roundtrip_v6_zone_name : forall tbl k port idx name addr, valid_tbl tbl -> zlen addr = 16 ->
+  by_index tbl idx = Some name -> idx <> 0 ->
+  exists na, back k tbl (Some (SA6 port idx addr)) = Ret (Some na) /\
+             net_addr_to_sockaddr tbl (Some na) = Ret (Some (SA6 port idx addr)).
+Proof.
+  intros tbl k port idx name addr Hv H16 Hi Hnz.
+  exact (sa_roundtrip_v6 tbl k port idx addr Hv H16 (ZIName tbl idx name Hi) (or_intror Hnz)).
+Qed.
